@@ -93,6 +93,55 @@ pub fn unlock_dir(_lock: ()) -> Result<(), PathError> {
     Ok(())
 }
 
+/// Verification hook H1: crash injection at file-write primitives.
+/// `VERYL_VERIF_CRASH_AT=k` aborts the process at the k-th point (1-based);
+/// `VERYL_VERIF_CRASH_LOG=<file>` appends one line per point reached.
+/// Inert unless one of the variables is set.
+#[cfg(veryl_verif)]
+pub mod verif_crash {
+    use std::io::Write;
+    use std::path::Path;
+    use std::sync::atomic::{AtomicUsize, Ordering};
+
+    static COUNT: AtomicUsize = AtomicUsize::new(0);
+
+    fn hit(label: &str, path: &Path) -> bool {
+        let at = std::env::var("VERYL_VERIF_CRASH_AT")
+            .ok()
+            .and_then(|x| x.parse::<usize>().ok());
+        let log = std::env::var_os("VERYL_VERIF_CRASH_LOG");
+        if at.is_none() && log.is_none() {
+            return false;
+        }
+        let n = COUNT.fetch_add(1, Ordering::SeqCst) + 1;
+        if let Some(log) = log
+            && let Ok(mut f) = std::fs::OpenOptions::new()
+                .create(true)
+                .append(true)
+                .open(log)
+        {
+            let _ = writeln!(f, "{n} {label} {}", path.display());
+        }
+        at == Some(n)
+    }
+
+    /// A point between two file-system primitives.
+    pub fn point(label: &str, path: &Path) {
+        if hit(label, path) {
+            std::process::abort();
+        }
+    }
+
+    /// The point inside a create+truncate+write call (`fs::write`) that the
+    /// caller cannot split: when selected, leaves the truncated file behind.
+    pub fn point_truncated(label: &str, path: &Path) {
+        if hit(label, path) {
+            let _ = std::fs::File::create(path);
+            std::process::abort();
+        }
+    }
+}
+
 /// Write `contents` to `path` atomically (temp file + rename) so a concurrent
 /// reader never observes a truncated/empty file, only the old or new contents.
 #[cfg(not(target_family = "wasm"))]
@@ -106,6 +155,8 @@ pub fn atomic_write<P: AsRef<Path>>(path: P, contents: &[u8]) -> std::io::Result
         .unwrap_or(Path::new("."));
     let mut file = tempfile::NamedTempFile::new_in(dir)?;
     file.write_all(contents)?;
+    #[cfg(veryl_verif)]
+    verif_crash::point("atomic:tmp-written", path);
     // tempfile creates with 0600; widen to 0644 to match a plain write.
     #[cfg(unix)]
     {
@@ -118,6 +169,12 @@ pub fn atomic_write<P: AsRef<Path>>(path: P, contents: &[u8]) -> std::io::Result
     let mut attempts = 0;
     loop {
         match file.persist(path) {
+            #[cfg(veryl_verif)]
+            Ok(_) => {
+                verif_crash::point("atomic:renamed", path);
+                return Ok(());
+            }
+            #[cfg(not(veryl_verif))]
             Ok(_) => return Ok(()),
             Err(e) => {
                 attempts += 1;
